@@ -369,6 +369,7 @@ class MedianDistance(Contract):
 
 @register
 class GetGridCoordinates(Contract):
+    functional = True
     target = "verde.mask:_get_grid_coordinates"
     stubs = {"check_coordinates": BU + ":check_coordinates"}
     cover_raise = True
